@@ -1,6 +1,7 @@
 import VlsModel.Model.Tracker
 import VlsModel.Props.C13
 import VlsModel.Gen.FnTrackerC13
+import VlsModel.Gen.FnTrackerWatch
 import VlsModel.Lemmas.FnGen
 /-
 C13 — the deciding core of the chain tracker proved equal to the function bodies that `translate/rs2lean.py`
@@ -673,5 +674,119 @@ theorem C13_fn_validate_block_ignores_txid_watches (ra rb fa fb : List Txid) (ro
   unfold ChainTracker.validate_block
   cases b <;> simp only [Bool.false_eq_true, if_false, if_true]
 end WatchSet
+
+/-! ### the listener slots and the watch sets (area `TrackerWatch`, `translate/fn_targets/TrackerWatch.b6.json`):
+`add_listener`, `add_listener_watches`, `get_all_watches`, `get_all_forward_watches`, `get_all_reverse_watches` -/
+
+section SlotWatches
+/-- what one slot contributes to the two accumulators of `get_all_watches` -/
+def watchStep {Txid OP : Type} [DecidableEq Txid] [DecidableEq OP] (rev : Bool) (acc : List Txid × List OP)
+    (slot : Gen.FnTrackerWatch.ListenSlot Txid OP) : List Txid × List OP :=
+  (slot.txid_watches.foldl Rs.asetInsert acc.1,
+   if rev then slot.seen.foldl Rs.asetInsert (slot.watches.foldl Rs.asetInsert acc.2)
+   else slot.watches.foldl Rs.asetInsert acc.2)
+
+theorem foldlM_pure {σ β : Type} (f : σ → β → Rs.M σ) (g : σ → β → σ) (hf : ∀ s x, f s x = .ok (g s x)) :
+    ∀ (l : List β) (s : σ), List.foldlM f s l = .ok (l.foldl g s) := by
+  intro l
+  induction l with
+  | nil => intro s; rfl
+  | cons x xs ih => intro s; simp only [List.foldlM, hf, Rs.bind_ok, List.foldl]; exact ih _
+
+variable {Key L Txid OP : Type} [DecidableEq Key] [DecidableEq Txid] [DecidableEq OP]
+
+omit [DecidableEq Key] in
+/-- **`get_all_watches`**: the union (insertion-ordered sets) of the slots' txid watches, of their outpoint watches and —
+    only with `include_reverse` — of the outpoints they have seen spent; never fails. -/
+theorem C13_fn_get_all_watches (f : List Txid → List Txid) (g : List OP → List OP)
+    (t : Gen.FnTrackerWatch.ChainTracker Key L Txid OP) (rev : Bool) :
+    t.get_all_watches f g rev =
+      .ok (f ((t.listeners.map (·.2.2)).foldl (watchStep rev) ([], [])).1,
+           g ((t.listeners.map (·.2.2)).foldl (watchStep rev) ([], [])).2) := by
+  unfold Gen.FnTrackerWatch.ChainTracker.get_all_watches
+  dsimp only
+  rw [foldlM_pure _ (fun acc (kv : L × Gen.FnTrackerWatch.ListenSlot Txid OP) => watchStep rev acc kv.2)]
+  · simp only [Rs.bind_ok, Rs.pure_eq, List.foldl_map]
+  · intro s x
+    obtain ⟨a, b⟩ := s
+    obtain ⟨l, slot⟩ := x
+    cases rev <;> rfl
+
+omit [DecidableEq Key] in
+/-- `get_all_forward_watches` = `get_all_watches(false)`, `get_all_reverse_watches` = `get_all_watches(true)` -/
+theorem C13_fn_get_all_forward_reverse (f : List Txid → List Txid) (g : List OP → List OP)
+    (t : Gen.FnTrackerWatch.ChainTracker Key L Txid OP) :
+    t.get_all_forward_watches f g = t.get_all_watches f g false ∧
+    t.get_all_reverse_watches f g = t.get_all_watches f g true := by
+  unfold Gen.FnTrackerWatch.ChainTracker.get_all_forward_watches Gen.FnTrackerWatch.ChainTracker.get_all_reverse_watches
+  rw [C13_fn_get_all_watches, C13_fn_get_all_watches]
+  exact ⟨rfl, rfl⟩
+
+omit [DecidableEq Txid] [DecidableEq OP] in
+/-- **`add_listener`**: the slot of a new listener holds the given txid watches, no outpoint watch and nothing seen; it is
+    stored under the listener's own key (replacing an entry of that key in place) -/
+theorem C13_fn_add_listener (key : L → Key) (t : Gen.FnTrackerWatch.ChainTracker Key L Txid OP) (l : L) (ws : List Txid) :
+    (t.add_listener key l ws).listeners =
+      Rs.omapInsert t.listeners (key l) (l, { txid_watches := ws, watches := [], seen := [] }) := rfl
+
+omit [DecidableEq Key] [DecidableEq Txid] in
+theorem slot_fold (ws : List OP) (slot : Gen.FnTrackerWatch.ListenSlot Txid OP) :
+    List.foldl (fun slot w => { slot with watches := Rs.asetInsert slot.watches w }) slot ws =
+      { slot with watches := ws.foldl Rs.asetInsert slot.watches } := by
+  induction ws generalizing slot with
+  | nil => rfl
+  | cons x xs ih => simp only [List.foldl]; rw [ih]
+
+omit [DecidableEq Txid] in
+/-- **`add_listener_watches`**: panics for an unknown key (the `expect`); otherwise the given outpoints are added to that
+    slot's `watches` (set union), the listener, its txid watches and `seen` stay, no other entry changes -/
+theorem C13_fn_add_listener_watches (t : Gen.FnTrackerWatch.ChainTracker Key L Txid OP) (k : Key) (ws : List OP) :
+    t.add_listener_watches k ws =
+      match Rs.omapGet t.listeners k with
+      | none => .error .panic
+      | some (l, slot) =>
+        .ok { t with listeners := Rs.omapInsert t.listeners k (l, { slot with watches := ws.foldl Rs.asetInsert slot.watches }) } := by
+  unfold Gen.FnTrackerWatch.ChainTracker.add_listener_watches
+  cases h : Rs.omapGet t.listeners k with
+  | none => rfl
+  | some e =>
+    obtain ⟨l, slot⟩ := e
+    simp only [Rs.unwrap, Rs.bind_ok, Rs.pure_eq, slot_fold]
+
+omit [DecidableEq Key] [DecidableEq Txid] in
+theorem mem_asetInsert (l : List OP) (x y : OP) : y ∈ Rs.asetInsert l x ↔ y ∈ l ∨ y = x := by
+  unfold Rs.asetInsert
+  split
+  · rename_i h
+    constructor
+    · intro hy; exact Or.inl hy
+    · intro hy
+      cases hy with
+      | inl h1 => exact h1
+      | inr h2 => subst h2; simpa using h
+  · simp
+
+omit [DecidableEq Key] [DecidableEq Txid] in
+theorem mem_foldl_aset (ws l : List OP) (y : OP) : y ∈ ws.foldl Rs.asetInsert l ↔ y ∈ l ∨ y ∈ ws := by
+  induction ws generalizing l with
+  | nil => simp
+  | cons x xs ih => simp only [List.foldl, ih, mem_asetInsert, List.mem_cons]; grind
+
+omit [DecidableEq Key] in
+/-- **the reverse watches are a superset of the forward watches** (before the set → vector conversion): every outpoint
+    `get_all_watches(false)` accumulates is accumulated by `get_all_watches(true)` -/
+theorem C13_fn_forward_subset_reverse (slots : List (Gen.FnTrackerWatch.ListenSlot Txid OP)) (a b : List Txid × List OP)
+    (hab : ∀ y, y ∈ a.2 → y ∈ b.2) :
+    ∀ y, y ∈ (slots.foldl (watchStep false) a).2 → y ∈ (slots.foldl (watchStep true) b).2 := by
+  induction slots generalizing a b with
+  | nil => exact hab
+  | cons s ss ih =>
+    simp only [List.foldl]
+    apply ih
+    intro y hy
+    simp only [watchStep, Bool.false_eq_true, if_false, if_true, mem_foldl_aset] at hy ⊢
+    grind
+
+end SlotWatches
 
 end VlsModel.Props.C13Fn
